@@ -17,6 +17,7 @@ CPU_LIMIT = 60
 
 LAYOUTS = {
     "rootpkg": ("", "m"), "nested": ("a/b/c", "c"), "sub": ("svc/internal/store", "store"), "named": ("weird-dir", "goodname"),
+    "initialism": ("net/url", "url"), "initialism2": ("enc/utf8", "utf8"),
 }
 
 
@@ -42,7 +43,8 @@ class G:
                   "{{if hasPrefix \"St\" .InterfaceName}}S{{else if hasSuffix \"r\" .InterfaceName}}R{{else}}O{{end}}",
                   "{{ .InterfaceName | exported }}", "{{ .InterfaceName | trimSuffix \"Service\" }}", "{{ .InterfaceName | trimSuffix \"e\" }}",
                   "{{ .InterfaceName | trimPrefix \"S\" | trimSuffix \"ore\" }}", "{{ trimSuffix \"go\" (.InterfaceFile | base | replaceAll \".\" \"\") }}",
-                  "{{ .InterfaceFile | base | trimSuffix \".go\" | trimPrefix \"c\" }}"])
+                  "{{ .InterfaceFile | base | trimSuffix \".go\" | trimPrefix \"c\" }}", "{{ \"url\" | exported }}", "{{ exported \"utf8\" }}",
+                  "{{ \"Uri\" | exported }}{{ \"id\" | exported }}", "{{ .SrcPackageName | exported }}", "{{ \"uuid\" | exported }}{{ \"xss\" | exported }}"])
         return base
 
     def ident(self, n=None):
@@ -75,7 +77,7 @@ def gen_case(rng, i):
     cwdmode = rng.choice(["cfgdir", "cfgdir", "subdir", "other-flag", "other-env"])
     g = G(rng, cwdmode == "cfgdir")
     exported = rng.random() < 0.7
-    iname = rng.choice(["Store", "Reader", "HTTPDoer", "Worker", "UserService", "Catalogue"]) if exported else rng.choice(["store", "reader", "httpDoer", "cacheService"])
+    iname = rng.choice(["Store", "Reader", "HTTPDoer", "Worker", "UserService", "Catalogue", "Uri", "Utf8"]) if exported else rng.choice(["store", "reader", "httpDoer", "cacheService", "url", "uri"])
     exprs = {}
     kind = rng.choice(["plain", "plain", "chain", "deep", "selfref", "schema", "defaults"])
     if kind != "defaults":
@@ -134,6 +136,8 @@ FIXED = [
 
 
 def eval_case(ctx, case):
+    if case["kind"] == "schema2":
+        return eval_schema2(ctx, case)
     reldir, pkgname = LAYOUTS[case["layout"]]
     iname = case["iface"]
     srcfile = case.get("srcfile", "iface.go")
@@ -235,6 +239,60 @@ def eval_case(ctx, case):
     return Verdict.held(obs, tags=tags)
 
 
+SCHEMA2_EXPRS = ["file://{{.ConfigDir}}/schemas/{{.InterfaceName}}.schema.json", "file://{{.ConfigDir}}/s/{{.Mock}}{{.InterfaceName | lower}}.json",
+                 "file://{{.InterfaceFile | dir}}/{{.InterfaceFile | base | trimSuffix \".go\"}}.schema.json", "file://{{.ConfigDir}}/s/{{.StructName}}.json",
+                 "file://{{.ConfigDir}}/s/{{.SrcPackageName}}_{{.InterfaceName | snakecase}}.json"]
+
+
+def eval_schema2(ctx, case):
+    """two interfaces of one package selected by all:true (no entries of their own); the schema location names the interface"""
+    reldir, pkgname = LAYOUTS[case["layout"]]
+    names = case["ifaces"]
+    srcfiles = ["first.go", "second.go"]
+    files = {"probeA.templ": probe.probe_template("A")}
+    for n, sf in zip(names, srcfiles):
+        files[os.path.join(reldir, sf)] = "package %s\n\ntype %s interface{ Do(x int) error }\n" % (pkgname, n)
+    root = core.scratch_module(ctx, files)
+    srcpath = MOD + ("/" + reldir if reldir else "")
+    tmpl = "file://" + os.path.join(root, "probeA.templ")
+    settings = {"template-schema": case["expr"], "require-template-schema-exists": True, "template-data": {"must": True}}
+    cfg = {"template": tmpl, "formatter": "noop", "dir": "out", "pkgname": "mocks", "filename": "m_{{.InterfaceName}}.go", "packages": {srcpath: {"config": {"all": True}}}}
+    (cfg if case["level"] == "root" else cfg["packages"][srcpath]["config"]).update(settings)
+    ifacedir = os.path.join(root, reldir) if reldir else root
+    want_paths = []
+    for k, (n, sf) in enumerate(zip(names, srcfiles)):
+        data = {"ConfigDir": root, "InterfaceDir": ifacedir, "InterfaceDirRelative": os.path.relpath(ifacedir, root), "InterfaceFile": os.path.join(ifacedir, sf),
+                "InterfaceName": n, "Mock": "Mock" if n[0].isupper() else "mock", "SrcPackageName": pkgname, "SrcPackagePath": srcpath, "Template": tmpl}
+        data["StructName"] = cfgmodel.fixpoint(cfgmodel.DEFAULTS["structname"], data)
+        sp = cfgmodel.fixpoint(case["expr"], data)[len("file://"):]
+        want_paths.append(sp)
+        os.makedirs(os.path.dirname(sp), exist_ok=True)
+        with open(sp, "w") as f:
+            f.write(json.dumps({"type": "object", "required": ["never-there" if case["reject"] == k else "must"]}))
+    if len(set(want_paths)) != 2:
+        return Verdict.skipped("expression does not separate the two interfaces")
+    with open(os.path.join(root, ".mockery.yml"), "w") as f:
+        f.write(json.dumps(cfg))
+    r = core.run_mockery(ctx, root, [], timeout=600, cpu_limit=CPU_LIMIT)
+    tags = ["what=schema-per-interface", "level=" + case["level"], "layout=" + case["layout"], "reject=%s" % case["reject"]]
+    obs = {"exit": r.exit, "expr": case["expr"], "schemas": [os.path.relpath(p, root) for p in want_paths], "rejecting": case["reject"]}
+    if r.timed_out:
+        return Verdict.inconclusive("watchdog")
+    if r.panicked:
+        return Verdict.violated("mockery crashed", dict(obs, **r.brief()), tags)
+    written = sorted(fn for fn in (os.listdir(os.path.join(root, "out")) if os.path.isdir(os.path.join(root, "out")) else []))
+    obs["written"] = written
+    if case["reject"] is None:
+        if r.exit != 0 or written != sorted("m_%s.go" % n for n in names):
+            return Verdict.violated("each interface's own schema accepts the data, but exit %s and files %s" % (r.exit, written), dict(obs, **r.brief()), tags)
+    else:
+        bad = "m_%s.go" % names[case["reject"]]
+        if r.exit == 0 or bad in written:
+            return Verdict.violated("the schema resolved for %s (%s) rejects the data, but exit %s and files %s (another interface's schema location was used)" % (
+                names[case["reject"]], obs["schemas"][case["reject"]], r.exit, written), dict(obs, **r.brief()), tags)
+    return Verdict.held(obs, tags=tags)
+
+
 def kf_key(case):
     if "InterfaceDirRelative" in json.dumps(case["exprs"]) and case["cwd"] != "cfgdir":
         return "InterfaceDirRelative-relative-to-cwd"
@@ -255,6 +313,10 @@ def body(ctx, replay=None):
     else:
         n = 140 if ctx.tier == "quick" else 1500
         cases = list(FIXED) + [gen_case(ctx.rng, i) for i in range(n)]
+        for j in range(len(SCHEMA2_EXPRS) * (3 if ctx.tier == "quick" else 12)):
+            cases.append({"kind": "schema2", "i": 50000 + j, "expr": SCHEMA2_EXPRS[j % len(SCHEMA2_EXPRS)], "level": ["root", "pkg"][(j // len(SCHEMA2_EXPRS)) % 2],
+                          "layout": ["nested", "rootpkg", "sub", "named"][j % 4], "reject": [None, 0, 1][(j // len(SCHEMA2_EXPRS)) % 3],
+                          "ifaces": [["Alpha", "Beta"], ["store", "Reader"], ["Zeta", "Eta"]][j % 3]})
     ctx.run_cases(cases, eval_case)
     return ctx.finish()
 
